@@ -500,6 +500,9 @@ func (c *Ctx) ClassifyDeaths(results []ShardResult, clause string) {
 		if r.Ended && r.ExitCode == 0 {
 			continue
 		}
+		if r.Ended && r.ExitCode == 66 && r.Shard.Variant == "race" {
+			continue // the race detector's exit status: the reports themselves are read from the GORACE log
+		}
 		last := ""
 		var wit json.RawMessage
 		if r.LastBegin != nil {
